@@ -18,6 +18,9 @@ extend(res, tier, seed, only) ADDS to the Result of the engine-R part (engine_r/
 (II) compiled code, eqrel.  `souffle -g` on a small program gives the call sites (which lowerUpperRange_* member, which
      bound tuples, verbatim); t_eqrel::lowerUpperRange_10/_01/_11, reorder, iterator_0/1 (EqRel.h, verbatim) and
      EquivalenceRelation::getBoundaries (verbatim) are compiled against the same token stubs.  Same obligations.
+(IV) interpreter Relation.h (several indexes per relation, one per search order): insert, purge, erase, swap and
+     EqrelRelation::extendAndInsert (RAM MERGE-EXTEND), cut verbatim, run over 1..3 recording fake indexes: every index receives
+     the operation; for MERGE-EXTEND every index of the @new relation learns the implied pairs (it becomes @delta after SWAP).
 (III) interpreter, B-tree indexes of arity 3: the same Generator/Engine/Index.h chain over an abstract ordered index
      (lower_bound = first element not less, upper_bound = first element greater, through the real comparator): for
      every stored tuple, it is inside [lower_bound(low), upper_bound(high)) iff it matches the bound columns, for
@@ -699,56 +702,63 @@ def build_checks(s, tier):
                                     "interpreter B-tree index of arity 3, index order %s, per-position constraints %s, values given as %s" % (list(perm), sh_, KIND_NAME[kv]),
                                     [], {"index_order": list(perm), "constraints_by_index_position": sh_, "bound_value_kinds": KIND_NAME[kv]}))
     # ---- (IV) interpreter Relation.h: every mutating operation reaches all indexes of the relation.  The number of indexes (1..3) is
-    #      enumerated outside the query: a symbolic count makes every index access symbolic (0.5-1.2 M variables per query, measured).
-    th = tier == "thorough"
+    #      enumerated inside one harness per operation as consecutive concrete calls: a symbolic count makes every index access symbolic
+    #      (0.5-1.2 M variables per query, measured), concrete counts fold to almost nothing.
     all_i = lambda n, cond: " && ".join("(%s)" % (cond % {"o": 4 * i}) for i in range(n))
+    pairs = [(a_, b_) for a_ in (1, 2, 3) for b_ in (1, 2, 3)]
     for eq in (0, 1):
         kind = "EqrelRelation" if eq else "Relation<2,0,Btree>"
         tag = "eqrel" if eq else "btree"
-        for n in ((1, 2, 3) if (eq or th) else (3,)):
-            b = ["k_rel_insert(%d, IN[1], IN[2], IN[3], IN[4], %d, (uint32_t*)OUT);" % (n, eq),
-                 'CHECK(%s, "after insert(tuple) every index of the relation stores the tuple");' % all_i(n, "OUT[%(o)d + 1] == 1"),
-                 'CHECK(%s, "every index that is updated receives the tuple as given");' % all_i(n, "OUT[%(o)d + 3] == 1"),
-                 'CHECK(IN[4] || OUT[12] == !IN[1], "insert reports whether the tuple was new");']
-            checks.append(Check("rel_insert_%s_n%d" % (tag, n), "interp-relation", "insert", 5, b,
-                                "interpreter %s::insert (typed and raw-data entry points), %d indexes, tuple present in all / in none before" % (kind, n),
-                                [], {"operation": "insert", "relation": kind, "indexes": n}, dom="(IN[1] == 0 || IN[1] == 1) && (IN[4] == 0 || IN[4] == 1)",
-                                key="relation-indexes:insert:%s" % tag))
-        for n in ((1, 2, 3) if th else (2, 3) if eq else (3,)):
-            b = ["k_rel_purge(%d, IN[1], %d, (uint32_t*)OUT);" % (n, eq),
-                 'CHECK(%s, "after purge every index of the relation is empty");' % all_i(n, "OUT[%(o)d] == 0 && OUT[%(o)d + 1] == 0")]
-            checks.append(Check("rel_purge_%s_n%d" % (tag, n), "interp-relation", "purge", 2, b,
-                                "interpreter %s::purge / __purge, %d non-empty indexes" % (kind, n), [], {"operation": "purge", "relation": kind, "indexes": n},
-                                dom="(IN[1] == 0 || IN[1] == 1)", key="relation-indexes:purge:%s" % tag))
-    pairs = [(a_, b_) for a_ in (1, 2, 3) for b_ in (1, 2, 3)]
-    for ns, nt in (pairs if th else [(1, 1), (2, 2), (3, 1), (2, 3)]):
-        b = ["k_rel_extend(%d, %d, (uint32_t*)OUT);" % (ns, nt),
-             'CHECK(%s, "after MERGE-EXTEND every index of the extended (@new) relation holds the new pairs and the pairs implied together with the old knowledge");'
-             % all_i(ns, "(OUT[%(o)d] & 5) == 5")]
-        checks.append(Check("rel_extend_source_n%d%d" % (ns, nt), "interp-relation", "extendAndInsert", 1, b,
-                            "interpreter EqrelRelation::extendAndInsert (RAM MERGE-EXTEND), source side: %d source / %d target indexes" % (ns, nt), [],
-                            {"operation": "extendAndInsert", "side": "source (@new, becomes @delta after SWAP)", "indexes": [ns, nt]}, e2e="merge-extend",
-                            key="relation-indexes:extendAndInsert:source-index-not-extended"))
-    for ns, nt in (pairs if th else [(1, 2), (2, 3), (3, 1)]):
-        b = ["k_rel_extend(%d, %d, (uint32_t*)OUT);" % (ns, nt),
-             'CHECK(%s, "after MERGE-EXTEND every index of the target relation holds its old pairs and the new pairs");' % all_i(nt, "(OUT[13 + %(o)d] & 3) == 3")]
-        checks.append(Check("rel_extend_target_n%d%d" % (ns, nt), "interp-relation", "extendAndInsert", 1, b,
-                            "interpreter EqrelRelation::extendAndInsert (RAM MERGE-EXTEND), target side: %d source / %d target indexes" % (ns, nt), [],
-                            {"operation": "extendAndInsert", "side": "target (the full relation)", "indexes": [ns, nt]},
-                            key="relation-indexes:extendAndInsert:target-index-not-updated"))
-    for n in ((1, 2, 3) if th else (1, 3)):
-        b = ["k_rel_erase(%d, IN[1], IN[2], IN[3], (uint32_t*)OUT);" % n,
-             'CHECK(%s, "after erase(tuple) no index of the relation stores the tuple");' % all_i(n, "OUT[%(o)d + 1] == 0"),
-             'CHECK(%s, "every index that is updated receives the tuple as given");' % all_i(n, "OUT[%(o)d + 3] == 1"),
-             'CHECK(OUT[12] == IN[1], "erase reports whether the tuple was present");']
-        checks.append(Check("rel_erase_btreedelete_n%d" % n, "interp-relation", "erase", 4, b, "interpreter BtreeDeleteRelation::erase, %d indexes, tuple present in all / in none before" % n,
-                            [], {"operation": "erase", "relation": "BtreeDeleteRelation<2,0>", "indexes": n}, dom="(IN[1] == 0 || IN[1] == 1)", key="relation-indexes:erase:btreedelete"))
-    for n1, n2 in (pairs if th else [(2, 3)]):
-        b = ["k_rel_swap(%d, %d, (uint32_t*)OUT);" % (n1, n2),
-             'CHECK(OUT[0] == %d && OUT[1] == %d && OUT[2] == 1, "swap exchanges the complete index sets of the two relations");' % (n2, n1)]
-        checks.append(Check("rel_swap_n%d%d" % (n1, n2), "interp-relation", "swap", 1, b, "interpreter Relation::swap, %d / %d indexes (the `main` pointers are not part of the obligation)" % (n1, n2),
-                            [], {"operation": "swap", "note": "Relation::swap is not called by the Engine (RAM SWAP exchanges relation handles)", "indexes": [n1, n2]},
-                            key="relation-indexes:swap"))
+        b = []
+        for n in (1, 2, 3):
+            b += ["k_rel_insert(%d, IN[1], IN[2], IN[3], IN[4], %d, (uint32_t*)OUT);" % (n, eq),
+                  'CHECK(%s, "after insert(tuple) every index of a relation with %d indexes stores the tuple");' % (all_i(n, "OUT[%(o)d + 1] == 1"), n),
+                  'CHECK(%s, "every index that is updated receives the tuple as given (%d indexes)");' % (all_i(n, "OUT[%(o)d + 3] == 1"), n),
+                  'CHECK(IN[4] || OUT[12] == !IN[1], "insert reports whether the tuple was new");']
+        checks.append(Check("rel_insert_%s" % tag, "interp-relation", "insert", 5, b,
+                            "interpreter %s::insert (typed and raw-data entry points), 1, 2 and 3 indexes, tuple present in all / in none before" % kind,
+                            [], {"operation": "insert", "relation": kind, "indexes": [1, 2, 3]}, dom="(IN[1] == 0 || IN[1] == 1) && (IN[4] == 0 || IN[4] == 1)",
+                            key="relation-indexes:insert:%s" % tag))
+        b = []
+        for n in (1, 2, 3):
+            b += ["k_rel_purge(%d, IN[1], %d, (uint32_t*)OUT);" % (n, eq),
+                  'CHECK(%s, "after purge every index of a relation with %d indexes is empty");' % (all_i(n, "OUT[%(o)d] == 0 && OUT[%(o)d + 1] == 0"), n)]
+        checks.append(Check("rel_purge_%s" % tag, "interp-relation", "purge", 2, b,
+                            "interpreter %s::purge / __purge, 1, 2 and 3 non-empty indexes" % kind, [], {"operation": "purge", "relation": kind, "indexes": [1, 2, 3]},
+                            dom="(IN[1] == 0 || IN[1] == 1)", key="relation-indexes:purge:%s" % tag))
+    b = []
+    for ns, nt in pairs:
+        b += ["k_rel_extend(%d, %d, (uint32_t*)OUT);" % (ns, nt),
+              'CHECK(%s, "after MERGE-EXTEND every index of the extended (@new) relation holds the new pairs and the pairs implied together with the old knowledge (%d source / %d target indexes)");'
+              % (all_i(ns, "(OUT[%(o)d] & 5) == 5"), ns, nt)]
+    checks.append(Check("rel_extend_source", "interp-relation", "extendAndInsert", 1, b,
+                        "interpreter EqrelRelation::extendAndInsert (RAM MERGE-EXTEND), source side: 1..3 source x 1..3 target indexes", [],
+                        {"operation": "extendAndInsert", "side": "source (@new, becomes @delta after SWAP)", "indexes": "1..3 x 1..3"}, e2e="merge-extend",
+                        key="eqrel-relation:extendAndInsert:source-index-not-extended"))
+    b = []
+    for ns, nt in pairs:
+        b += ["k_rel_extend(%d, %d, (uint32_t*)OUT);" % (ns, nt),
+              'CHECK(%s, "after MERGE-EXTEND every index of the target relation holds its old pairs and the new pairs (%d source / %d target indexes)");'
+              % (all_i(nt, "(OUT[13 + %(o)d] & 3) == 3"), ns, nt)]
+    checks.append(Check("rel_extend_target", "interp-relation", "extendAndInsert", 1, b,
+                        "interpreter EqrelRelation::extendAndInsert (RAM MERGE-EXTEND), target side: 1..3 source x 1..3 target indexes", [],
+                        {"operation": "extendAndInsert", "side": "target (the full relation)", "indexes": "1..3 x 1..3"},
+                        key="eqrel-relation:extendAndInsert:target-index-not-updated"))
+    b = []
+    for n in (1, 2, 3):
+        b += ["k_rel_erase(%d, IN[1], IN[2], IN[3], (uint32_t*)OUT);" % n,
+              'CHECK(%s, "after erase(tuple) no index of a relation with %d indexes stores the tuple");' % (all_i(n, "OUT[%(o)d + 1] == 0"), n),
+              'CHECK(%s, "every index that is updated receives the tuple as given (%d indexes)");' % (all_i(n, "OUT[%(o)d + 3] == 1"), n),
+              'CHECK(OUT[12] == IN[1], "erase reports whether the tuple was present");']
+    checks.append(Check("rel_erase_btreedelete", "interp-relation", "erase", 4, b, "interpreter BtreeDeleteRelation::erase, 1, 2 and 3 indexes, tuple present in all / in none before",
+                        [], {"operation": "erase", "relation": "BtreeDeleteRelation<2,0>", "indexes": [1, 2, 3]}, dom="(IN[1] == 0 || IN[1] == 1)", key="relation-indexes:erase:btreedelete"))
+    b = []
+    for n1, n2 in pairs:
+        b += ["k_rel_swap(%d, %d, (uint32_t*)OUT);" % (n1, n2),
+              'CHECK(OUT[0] == %d && OUT[1] == %d && OUT[2] == 1, "swap exchanges the complete index sets of the two relations (%d / %d indexes)");' % (n2, n1, n1, n2)]
+    checks.append(Check("rel_swap", "interp-relation", "swap", 1, b, "interpreter Relation::swap, 1..3 x 1..3 indexes (the `main` pointers are not part of the obligation)",
+                        [], {"operation": "swap", "note": "Relation::swap is not called by the Engine (RAM SWAP exchanges relation handles)", "indexes": "1..3 x 1..3"},
+                        key="relation-indexes:swap"))
     return checks
 
 
@@ -1174,7 +1184,10 @@ def extend(res, tier, seed, only=None):
                            "EquivalenceRelation::lower_bound/upper_bound (eqrel) or an abstract ordered index through the real comparator (B-tree, arity 3), "
                            "and the compiled t_eqrel::lowerUpperRange_* -> getBoundaries with the call sites emitted by `souffle -g`; one CBMC query per "
                            "(pattern, index order, way the bound value is given) over ALL 32-bit values of the bound columns and both answers of the "
-                           "membership stubs; a violated pattern is re-proved with each reported sentinel class assumed away",
+                           "membership stubs; a violated pattern is re-proved with each reported sentinel class assumed away.  Group interp-relation: the mutating "
+                           "member functions of interpreter/Relation.h run over 1..3 recording fake indexes per relation: every index must receive the "
+                           "operation (insert / erase: the tuple as given; purge: emptied; MERGE-EXTEND: every source index learns the implied pairs, every "
+                           "target index the new pairs, in an abstract content model new / old / implied)",
             "obligations": len(all_obls), "discharged": sum(1 for o in all_obls if o.verdict == "holds"),
             "patterns": len(sel), "patterns_proved": len(state["held"]),
             "by_group": groups,
@@ -1194,7 +1207,9 @@ def extend(res, tier, seed, only=None):
                 "souffle::interpreter::comparator<2>, comparator<3> (Util.h, included)",
                 "souffle::EquivalenceRelation::lower_bound, upper_bound, getBoundaries<1>, getBoundaries<2> (EquivalenceRelation.h, verbatim)",
                 "souffle::t_eqrel::lowerUpperRange_10/_01/_11, reorder, iterator_0, iterator_1 (EqRel.h, verbatim)",
-                "call sites `rel_eq->lowerUpperRange_*(..)` emitted by the synthesiser for %d rules" % len(s["calls"])],
+                "call sites `rel_eq->lowerUpperRange_*(..)` emitted by the synthesiser for %d rules" % len(s["calls"]),
+                "souffle::interpreter::Relation<>::insert(const Tuple&), insert(const RamDomain*), constructTuple, purge, __purge, swap; class EqrelRelation "
+                "(extendAndInsert = RAM MERGE-EXTEND); class BtreeDeleteRelation (erase) (interpreter/Relation.h, verbatim) over recording fake indexes"],
             "source": {f: common.file_sha(common.repo_file(f)) for f in SRC_FILES},
             "generated_cpp_sha": s["gen_sha"],
             "engine_cpp_index_operations_using_the_sliced_macro": s["n_cal"],
@@ -1219,6 +1234,9 @@ def extend(res, tier, seed, only=None):
                         "existence checks with all columns bound (they call contains(tuple), not the range logic) and ExistenceCheck bound construction "
                         "(getExistenceSuperInstInfo; same encoding, not sliced)",
                         "end-to-end replay of compiled-side counterexamples (native replay of the sliced code only)",
+                        "Relation.h: the constructor (index creation from the index cluster), insert(const Relation&) (goes through insert(tuple)), the readers; "
+                        "Relation::swap leaves the `main` pointers unswapped (observed, not an obligation: the Engine never calls it, RAM SWAP exchanges handles); "
+                        "the fake index abstracts EquivalenceRelation::extendAndInsert as `this += implied(this, other); other += this`",
                         "inequality search bounds on eqrel relations (the RAM translator keeps them as filters; checked on a probe program, not on every run)"],
         }
         res.assumptions += [
